@@ -5,7 +5,7 @@ from gen_http import Request, Header, Chunk
 
 HARNESS = "rx_driver"
 LEAN_MODULES = ["ViaProofs.C02"]
-LEMMA_MODULES = ['ViaProofs.Frag.Lines', 'ViaProofs.Frag.Headers', 'ViaProofs.Frag.Compose', 'ViaProofs.C01', 'ViaProofs.C05', 'ViaProofs.Trans.RL', 'ViaProofs.Trans.FL', 'ViaProofs.Trans.CH', 'ViaProofs.Trans.MH']
+LEMMA_MODULES = ['ViaProofs.Frag.Lines', 'ViaProofs.Frag.Headers', 'ViaProofs.Frag.Compose', 'ViaProofs.C01', 'ViaProofs.C05', 'ViaProofs.Trans.RL', 'ViaProofs.Trans.FL', 'ViaProofs.Trans.CH', 'ViaProofs.Trans.MH', 'ViaProofs.Trans.CK']
 REQUIRED_THEOREMS = ['Via.C02_method_at_limit', 'Via.C02_method_beyond', 'Via.C02_uri_at_limit', 'Via.C02_uri_beyond', 'Via.C02_ws_before_target', 'Via.C02_content_length_invalid', 'Via.C02_content_length_too_large', 'Via.C02_content_length_at_limit', 'Via.C02_trace_with_body', 'Via.C02_trace_proposes_405', 'Via.C02_missing_host']
 LEVEL = "proof"
 RULE = ("requests obtained from a well-formed one by ONE violating change of a known class (method/target length, version "
@@ -14,7 +14,7 @@ RULE = ("requests obtained from a well-formed one by ONE violating change of a k
         "construction, plus the at-limit twin that must be accepted; x partitions (whole, byte-wise, every single cut, "
         "structural cuts, cut right after the offending byte) x configurations; non-trivial = more than one read; "
         "distinct = distinct (class, config, bytes, partition)")
-TRUSTED_BASE = ["tools/cxx2lean.py (translator of the parse_char / parse state machines and of message_headers::parse: RL, FL, CH from the current C++ into Lean; the model is proved equal to the translation in ViaProofs/Trans)", "Lean 4.33 kernel", "axioms: propext, Classical.choice, Quot.sound at most",
+TRUSTED_BASE = ["tools/cxx2lean.py (translator of the parse_char / parse state machines and of message_headers::parse and rx_chunk::parse: RL, FL, CH from the current C++ into Lean; the model is proved equal to the translation in ViaProofs/Trans)", "Lean 4.33 kernel", "axioms: propext, Classical.choice, Quot.sound at most",
                 "rx_driver harness + via_model driver", "strtol modelled as exact conversion with overflow -> -1"]
 ASSUMPTIONS = ["411 Length Required is inherently read-dependent (a head followed by nothing is a complete body-less request); "
                "it is checked only where body bytes share the read with the end of the head",
@@ -269,6 +269,18 @@ def generate(tier, rng):
                         cases.append(Case("c02-%d" % n, lines, {"expect": exp, "class": cls, "nparts": len(parts), "cc": cc,
                                                                 "tags": [cls, mode, cfgname]}))
                         n += 1
+                # the same request as the SECOND message on the receiver (after a served request, or after a rejected one):
+                # limits and strictness configured on the receiver must still apply after clear()
+                if not quick or n % 3 == 0:
+                    for pre_kind in ("valid", "invalid"):
+                        pre = (b"GET /pre HTTP/1.1\r\nHost: a\r\n\r\n" if pre_kind == "valid" else b"BAD\r\n\r\n")
+                        if len(pre) > cfg.ll or (pre_kind == "valid" and (cfg.a < 4 or cfg.hn < 1)):
+                            continue
+                        lines = [cfg.new_line(cont=rng.choice("sv"), maxc=maxc or 1048576, maxk=maxk or 1048576, cc=cc), "feed " + hx(pre)] + \
+                            G.feed_lines(rng.choice(list(G.partitions(data, rng, rng.choice(["whole", "lines", "struct"]), k=3)) or [[data]]))
+                        cases.append(Case("c02-%d" % n, lines, {"expect": exp, "class": cls, "nparts": 2, "cc": cc, "pre": pre_kind,
+                                                                "tags": [cls, "second-message", cfgname]}))
+                        n += 1
                 if off is not None:
                     parts = G.cuts_to_parts(data, [off])
                     lines = [cfg.new_line(maxc=maxc or 1048576, maxk=maxk or 1048576, cc=cc)] + G.feed_lines(parts)
@@ -286,6 +298,15 @@ def oracle(case, out):
         return None
     got = G.deliveries(out[1:])
     cls = case.meta.get("class")
+    pre = case.meta.get("pre")
+    if pre:
+        # the first delivery belongs to the message sent before the one under test
+        want = "VALID" if pre == "valid" else "INVALID"
+        if not got or not got[0].startswith(want):
+            return "class %s: the %s request sent first was not reported as %s: %s" % (cls, pre, want, [g[:60] for g in got[:2]])
+        got = got[1:]
+        if exp == "VALID405":
+            return None
     if exp == "VALID":
         vs = [g for g in got if g.startswith("VALID")]
         if len(vs) != 1 or any(g.startswith("INVALID") for g in got):
